@@ -34,6 +34,9 @@ def match(violation: dict[str, Any], entries: list[dict[str, Any]]) -> dict[str,
         prog_pat = e.get("program")
         if prog_pat is not None and not fnmatch.fnmatchcase(str(violation.get("program", "")), prog_pat):
             continue
+        msg_pat = e.get("message")
+        if msg_pat is not None and not fnmatch.fnmatchcase(str(violation.get("text", "")).replace("\n", " "), msg_pat):
+            continue
         classes = e.get("classes")
         if classes is not None and not any(
             fnmatch.fnmatchcase(str(violation.get("cls")), pat) for pat in classes
